@@ -922,6 +922,12 @@ func c07Stream(ctx *Ctx, idx int, r *RNG) (stream []byte, layout string, keys []
 			ks = KeySet{"uniform-large", genUniform(r, 9000)}
 		}
 	}
+	if idx%100 == 60 || idx%100 == 62 {
+		// streams beyond 1 MiB (encoded values; stored key tails), current
+		// layout and 0.5.10/0.5.11: whatever a loader does differently for big
+		// bodies must still refuse every cut and leave nothing behind
+		ks = genMegabyte(r, map[int]int{60: 0, 62: 1}[idx%100])
+	}
 	keys = ks.Keys
 	n := len(keys)
 	kind := []string{"i32", "i32", "none", "i64", "u16", "str16", "bytesN"}[r.Intn(7)]
@@ -930,6 +936,12 @@ func c07Stream(ctx *Ctx, idx int, r *RNG) (stream []byte, layout string, keys []
 		kind = "i32"
 	}
 	vals := genVals(r, kind, n, r.Intn(3))
+	if ks.Family == "mb:values" {
+		vals = &ValSpec{Kind: "bytesN", N: r.Range(100, 160), Strs: make([]string, n)}
+		for i := range vals.Strs {
+			vals.Strs[i] = string(r.Bytes(vals.N))
+		}
+	}
 	enc = vals.Encoder()
 	o := allOptSets()[r.Intn(16)]
 	switch lay {
@@ -971,6 +983,9 @@ func runC07(ctx *Ctx, idx int) {
 	}
 	ctx.Eval()
 	ctx.Count("layout:"+strings.SplitN(layout, "-", 2)[0], 1)
+	if len(stream) > 1<<20 {
+		ctx.Count("streams:beyond_1MiB", 1)
+	}
 	// sanity: the full stream loads
 	if _, lerr, pv, _ := loadTrie(enc, stream); lerr != nil || pv != nil {
 		ctx.Violate("C07/valid-stream-rejected/"+layout, map[string]interface{}{"layout": layout, "error": fmt.Sprint(lerr), "panic": fmt.Sprint(pv), "keys_hex": hexKeys(keys, 30)})
